@@ -372,7 +372,7 @@ func c08Interval1(c *h.Ctx) {
 		s.Leave(ids...)
 		desc = "all but one player left during the continue interval"
 	case 1: // break set during the interval -> must pause
-		s.TE.UpdateBlind(-1, 0, 0, 0, 0)
+		setBreak(s.TE, c.R)
 		desc = "blind level became a break during the continue interval"
 	case 2: // busted players re-buy during the interval -> deals on with them
 		t := s.Table()
